@@ -17,6 +17,7 @@ Definition src : srcflags :=
    contents and dtype. *)
 Definition C07_full_statement (fl : srcflags) : Prop :=
   forall autograd O fm s0 lg r s',
+    read_only O ->      (* the differentiated function assigns no global itself; see C07_restore_with_writes *)
     run_form fl autograd O fm (mkSt s0 lg) = (r, s') -> store_preserved s0 (sto s').
 
 Theorem C07_restore : C07_full_statement src.
@@ -27,32 +28,48 @@ Proof.
 Qed.
 Print Assumptions C07_restore.
 
+(* A differentiated function that itself assigns globals (names W; every call may assign different values):
+   the property speaks about the OPERATOR's own effects, so the function's writes are allowed and everything
+   it never assigns is untouched — provided it does not assign the very parameters the operator rebinds by name
+   (those the operator restores to their initial value, overwriting the function's assignment). *)
+Theorem C07_restore_with_writes : forall W autograd O fm s0 lg r s',
+  writes_in W O -> params_not_written W fm ->
+  run_form src autograd O fm (mkSt s0 lg) = (r, s') ->
+  store_preserved_outside W s0 (sto s').
+Proof.
+  exact (fun W autograd O fm s0 lg r s' =>
+           restore_full_with_writes W src autograd O fm s0 lg r s' (eq_refl : restores_in_finally src = true)
+                                    (eq_refl : ng_copies_input src = true)).
+Qed.
+Print Assumptions C07_restore_with_writes.
+
 (* Independent of how numeric_grad converts its input: the statement holds on
    every input outside the alias class (numeric path and the parameter is an
    array / tensor over a float64 buffer). *)
 Theorem C07_restore_outside_alias : forall copies fin autograd O fm s0 lg r s',
+  read_only O ->
   let fl := mkFlags copies fin nj_flattens_into_copy nj_perturbs_copies grad_func_restores_in_finally
                     mg_restores_in_finally mj_restores_in_finally in
   safe_form s0 fl autograd fm ->
   run_form fl autograd O fm (mkSt s0 lg) = (r, s') -> store_preserved s0 (sto s').
 Proof.
-  exact (fun copies fin autograd O fm s0 lg r s' =>
+  exact (fun copies fin autograd O fm s0 lg r s' HO =>
            restore_outside_alias
              (mkFlags copies fin nj_flattens_into_copy nj_perturbs_copies grad_func_restores_in_finally
                       mg_restores_in_finally mj_restores_in_finally)
              autograd O fm s0 lg r s'
              (eq_refl : restores_in_finally
                           (mkFlags copies fin nj_flattens_into_copy nj_perturbs_copies grad_func_restores_in_finally
-                                   mg_restores_in_finally mj_restores_in_finally) = true)).
+                                   mg_restores_in_finally mj_restores_in_finally) = true) HO).
 Qed.
 Print Assumptions C07_restore_outside_alias.
 
 (* evaluating the same function afterwards returns what it returned before *)
 Theorem C07_again : forall autograd O fm s0 lg r s' f,
-  reads_only_visible f ->
+  read_only O -> reads_only_visible f ->
   run_form src autograd O fm (mkSt s0 lg) = (r, s') -> f (sto s') = f s0.
 Proof.
-  exact (fun autograd O fm s0 lg r s' f Hf Hrun => Hf s0 (sto s') (C07_restore autograd O fm s0 lg r s' Hrun)).
+  exact (fun autograd O fm s0 lg r s' f HO Hf Hrun => Hf s0 (sto s') (C07_restore autograd O fm s0 lg r s' HO Hrun)).
 Qed.
 Print Assumptions C07_again.
 
@@ -61,7 +78,7 @@ Print Assumptions C07_again.
    (float64), f raises at its 3rd evaluation, f:>p leaves p = [1.0 2.0+eps 3.0]. *)
 Definition r4_store : store :=
   mkStore [(1, VArr 0%nat)] [mkCell DF64 [3] [mkNum false 10 []; mkNum false 20 []; mkNum false 30 []]].
-Definition r4_oracle : oracle := fun k _ _ => if Nat.eqb k 2 then FRaise 7 else FRet RScalar.
+Definition r4_oracle : oracle := fun k _ _ => (if Nat.eqb k 2 then FRaise 7 else FRet RScalar, []).
 Definition pinned_flags : srcflags := mkFlags false false true true true true true.
 
 Theorem C07_alias_refuted :
@@ -76,7 +93,7 @@ Theorem C07_full_statement_refuted_on_pinned_tree : ~ C07_full_statement pinned_
 Proof.
   intros H.
   destruct (run_form pinned_flags false r4_oracle (FGradVar 1) (mkSt r4_store [])) as [r s'] eqn:E.
-  pose proof (H false r4_oracle (FGradVar 1) r4_store [] r s' E) as [_ [ext Hh]].
+  pose proof (H false r4_oracle (FGradVar 1) r4_store [] r s' (fun _ _ _ => eq_refl) E) as [_ [ext Hh]].
   vm_compute in E. inversion E. subst s'. simpl in Hh. discriminate Hh.
 Qed.
 
@@ -92,7 +109,7 @@ Proof. split; eexists; eexists; (split; [vm_compute; reflexivity | discriminate]
    survives a failing evaluation (p stays bound to the perturbed copy / the tracking tensor). *)
 Definition int_store : store :=
   mkStore [(1, VArr 0%nat); (2, VInt 5)] [mkCell DInt [2] [mkNum true 1 []; mkNum true 2 []]].
-Definition fail_first : oracle := fun k _ _ => if Nat.eqb k 0 then FRaise 7 else FRet RScalar.
+Definition fail_first : oracle := fun k _ _ => (if Nat.eqb k 0 then FRaise 7 else FRet RScalar, []).
 
 Theorem C07_refuted_without_finally :
   (exists r s', run_form (mkFlags true false true true false true true) false fail_first (FNablaSym 1) (mkSt int_store []) = (r, s')
@@ -108,7 +125,7 @@ Qed.
 (* numeric_jacobian is safe because it perturbs copies: with neither the flattening copy
    nor the x.copy()s, p∂g writes into p (a float64 array) even when g never fails. *)
 Theorem C07_refuted_without_jacobian_copies :
-  exists r s', run_form (mkFlags true false false false true true true) false (fun _ _ _ => FRet (RArr 3)) (FJacVar 1) (mkSt r4_store []) = (r, s')
+  exists r s', run_form (mkFlags true false false false true true true) false (fun _ _ _ => (FRet (RArr 3), [])) (FJacVar 1) (mkSt r4_store []) = (r, s')
                /\ r = Ok tt /\ nth_error (heap (sto s')) 0 <> nth_error (heap r4_store) 0.
 Proof. eexists; eexists. split; [vm_compute; reflexivity|]. split; [reflexivity | discriminate]. Qed.
 
@@ -116,16 +133,30 @@ Proof. eexists; eexists. split; [vm_compute; reflexivity|]. split; [reflexivity 
 Example C07_example_failing_runs :
   let fl := mkFlags true false true true true true true in
   (exists s', run_form fl false r4_oracle (FGradVar 1) (mkSt r4_store []) = (Err (ERaise 7), s') /\ length (log s') = 3%nat) /\
-  (exists s', run_form fl false (fun _ _ _ => FRet (RArr 2)) (FNablaSym 1) (mkSt int_store []) = (Err ENonScalar, s')) /\
-  (exists s', run_form fl true (fun _ _ _ => FRet (RTen 1 true)) (FGradMulti [1; 2]) (mkSt int_store []) = (Ok tt, s')
+  (exists s', run_form fl false (fun _ _ _ => (FRet (RArr 2), [])) (FNablaSym 1) (mkSt int_store []) = (Err ENonScalar, s')) /\
+  (exists s', run_form fl true (fun _ _ _ => (FRet (RTen 1 true), [])) (FGradMulti [1; 2]) (mkSt int_store []) = (Ok tt, s')
               /\ exists st1, nth_error (log s') 0 = Some ([], st1) /\ lookup 2 (vars st1) = Some (VTen 2%nat true)) /\
-  (exists s', run_form fl false (fun _ _ _ => FRet RScalar) (FJacMulti [1; 9]) (mkSt int_store []) = (Err (EKey 9), s')).
+  (exists s', run_form fl false (fun _ _ _ => (FRet RScalar, [])) (FJacMulti [1; 9]) (mkSt int_store []) = (Err (EKey 9), s')).
 Proof.
   cbv zeta. split; [|split; [|split]].
   - eexists. split; vm_compute; reflexivity.
   - eexists. vm_compute. reflexivity.
   - eexists. split; [vm_compute; reflexivity|]. eexists. split; vm_compute; reflexivity.
   - eexists. vm_compute. reflexivity.
+Qed.
+
+(* a function that counts its calls in the global 2 and fails at its second call: the counter shows its writes,
+   the parameter 1 and the heap are what they were *)
+Example C07_example_function_with_writes :
+  let O : oracle := fun k _ _ => (if Nat.eqb k 1 then FRaise 7 else FRet RScalar, [(2, VInt (Z.of_nat (S k)))]) in
+  writes_in [2] O /\ params_not_written [2] (FNablaSym 1) /\
+  exists s', run_form (mkFlags true false true true true true true) false O (FNablaSym 1) (mkSt int_store []) = (Err (ERaise 7), s')
+             /\ lookup 2 (vars (sto s')) = Some (VInt 2) /\ lookup 1 (vars (sto s')) = lookup 1 (vars int_store).
+Proof.
+  cbv zeta. split; [|split].
+  - intros k a s p [H|[]]. subst p. now left.
+  - simpl. intros [H|[]]. discriminate H.
+  - eexists. split; [vm_compute; reflexivity|]. split; reflexivity.
 Qed.
 
 Example C07_example_reads_only_visible :
